@@ -151,14 +151,25 @@ func execPrim(op string, a []string) string {
 		if err != nil {
 			return "err"
 		}
-		return okBytes(m.MACCreate(unhx(a[2])))
+		sl := newSlack(unhx(a[2]))
+		t, e := m.MACCreate(sl.views[0])
+		if !sl.intact() {
+			return "ARGUMENT-WRITTEN"
+		}
+		return okBytes(t, e)
 	case "prim.macverify":
 		alg, _ := strconv.Atoi(a[0])
 		m, err := macerFor(alg, unhx(a[1]))
 		if err != nil {
 			return "err"
 		}
-		if m.MACVerify(unhx(a[2]), unhx(a[3])) != nil {
+		// the usual receive buffer: message || tag in one allocation, each view with room behind it
+		sl := newSlack(unhx(a[2]), unhx(a[3]))
+		verr := m.MACVerify(sl.views[0], sl.views[1])
+		if !sl.intact() {
+			return "ARGUMENT-WRITTEN"
+		}
+		if verr != nil {
 			return "err"
 		}
 		return "ok"
@@ -275,14 +286,24 @@ func execPrim(op string, a []string) string {
 		if err != nil {
 			return "err"
 		}
-		return okBytes(e.Encrypt(unhx(a[2]), unhx(a[3]), unhx(a[4])))
+		sl := newSlack(unhx(a[2]), unhx(a[3]), unhx(a[4]))
+		ct, eerr := e.Encrypt(sl.views[0], sl.views[1], sl.views[2])
+		if !sl.intact() {
+			return "ARGUMENT-WRITTEN"
+		}
+		return okBytes(ct, eerr)
 	case "prim.aead.dec":
 		alg, _ := strconv.Atoi(a[0])
 		e, err := encryptorFor(alg, unhx(a[1]))
 		if err != nil {
 			return "err"
 		}
-		return okBytes(e.Decrypt(unhx(a[2]), unhx(a[3]), unhx(a[4])))
+		sl := newSlack(unhx(a[2]), unhx(a[3]), unhx(a[4]))
+		pt, derr := e.Decrypt(sl.views[0], sl.views[1], sl.views[2])
+		if !sl.intact() {
+			return "ARGUMENT-WRITTEN"
+		}
+		return okBytes(pt, derr)
 	case "prim.hkdf256":
 		n, _ := strconv.Atoi(a[3])
 		return okBytes(hkdf.HKDF256(unhx(a[0]), unhx(a[1]), unhx(a[2]), n))
@@ -331,6 +352,9 @@ func execPrim(op string, a []string) string {
 				break
 			}
 			outs = append(outs, hx(buf))
+			for j := range buf { // the caller wipes / reuses what it was handed (io.Reader: p must not be retained)
+				buf[j] = 0x77
+			}
 		}
 		return "ok " + strings.Join(outs, ",")
 	}
@@ -661,3 +685,33 @@ func genPrimKdf(r *rand.Rand, n int) []string {
 func genPrim(r *rand.Rand, n int) []string {
 	return append(append(genPrimMac(r, n), genPrimAead(r, n)...), genPrimKdf(r, n)...)
 }
+
+// slack: byte-slice arguments laid out back to back in one allocation, each with spare capacity behind it (the shape of a
+// receive buffer, or of a slice cut from a larger one).  A callee that appends to or writes through an argument shows up
+// as a change of the guard octets or of a neighbour.
+type slack struct {
+	buf   []byte
+	want  []byte
+	views [][]byte
+}
+
+func newSlack(args ...[]byte) *slack {
+	s := &slack{}
+	for _, a := range args {
+		s.buf = append(s.buf, a...)
+		s.buf = append(s.buf, 0xa5, 0x5a, 0xa5, 0x5a, 0xa5, 0x5a, 0xa5, 0x5a, 0xa5, 0x5a, 0xa5, 0x5a, 0xa5, 0x5a, 0xa5, 0x5a, 0xa5, 0x5a, 0xa5, 0x5a)
+	}
+	s.want = append([]byte{}, s.buf...)
+	off := 0
+	for _, a := range args {
+		var v []byte
+		if a != nil {
+			v = s.buf[off : off+len(a)] // capacity reaches to the end of the allocation
+		}
+		s.views = append(s.views, v)
+		off += len(a) + 20
+	}
+	return s
+}
+
+func (s *slack) intact() bool { return string(s.buf) == string(s.want) }
